@@ -247,9 +247,24 @@ func generateSearchInstruction(l *ast.AstExpression, offset int, state *GenState
 func generateLoop(l *ast.AstLoop, offset int, state *GenState) ([]SearchInstruction, error) {
 	result := []SearchInstruction{}
 
+	// every unrolled copy of the body declares the body's captures again: forget the
+	// captures of the previous copy before generating the next one
+	outer := map[string]bool{}
+	for name := range state.variables {
+		outer[name] = true
+	}
+	forgetCaptures := func() {
+		for name, target := range state.variables {
+			if target == -1 && !outer[name] {
+				delete(state.variables, name)
+			}
+		}
+	}
+
 	current_offset := offset
 	if l.Min > 0 && l.Name == "" {
 		for i := 0; i < l.Min; i++ {
+			forgetCaptures()
 			// I kinda hate generating this everytime but I also hate the other way where we have to adjust offset values to keep pointers in the body lined up
 			body, gen_error := generateSearchInstruction(&l.Body, current_offset, state)
 			if gen_error != nil {
@@ -264,6 +279,7 @@ func generateLoop(l *ast.AstLoop, offset int, state *GenState) ([]SearchInstruct
 		return result, nil
 	}
 
+	forgetCaptures()
 	body, gen_error := generateSearchInstruction(&l.Body, current_offset+1, state)
 	if gen_error != nil {
 		return []SearchInstruction{}, gen_error
